@@ -81,6 +81,9 @@ def run(ctx) -> None:
     from . import lockstep
     lockstep.zip_longest_table(ctx, "R05.10")  # (shared with R01.11: rows and items taken per source)
     ctx.floor("zip_longest_cells_decided", 100)
+    from . import tooltables
+    tooltables.tool_tables(ctx, "R05.11")  # (shared with R01.12: items taken and callable invocations per cell)
+    ctx.floor("tool_cells_decided", 120)
     ctx.floor("tools", 20)
     ctx.floor("pull_sites", 15)
     ctx.floor("short_circuit_cells", 6)
